@@ -148,9 +148,9 @@ def _replay_order_dependence(ctx, handles):
         ir = IRInfo(h)
         shape = {}
         for n, (f, d) in ir.size_sym.items():
-            shape[d] = max(1, int(ctx.model.get(n, 6)))
+            shape[d] = max(8, int(ctx.model.get(n, 8)))
         nd = max(len(f.spatial_shape) for f in ir.fields.values()) if False else max(len(x[2]) for x in ir.accesses)
-        shp = tuple(shape.get(d, 6) for d in range(nd))
+        shp = tuple(shape.get(d, 8) for d in range(nd))
         base = {name: rng.standard_normal(shp) for name in ir.fields}
         scal = {p.name: 0.5 for p in h.kernel.parameters if not p.properties}
         res = []
